@@ -23,9 +23,9 @@ CLAIMS = {
   "C10": ("exploration", TECH + " (index mapping deductive; search completeness bounded)",
           "BatchDL / BatchDLOfDifferences / ExtendedBatchDL completeness: exhaustive for all x, all list lengths and call histories on small prime-order curves, edge cases on named curves (bounded). Deductive part: CheckWeakECPrivateKey / CheckECKeySmallDifference flag key i exactly when search result i is not None (partition by curve preserves the index mapping).",
           NOTE, "DESIGN.md 4/C10"),
-  "C11": ("exploration", TECH + " (parameters ground; arithmetic bounded)",
-          "Named-curve parameters: ground obligations (primality by BPSW+MR, non-singular, G on curve, n*G = infinity by an independent implementation, Hasse bound). Point operations incl. batched variants: exhaustive over whole small prime-order groups and edge operands on named curves against an independent textbook law (bounded).",
-          NOTE, "DESIGN.md 4/C11"),
+  "C11": ("proof", TECH,
+          "Formulas, for every prime field (congruence mode: the bodies are executed with `% self.mod` dropped, postconditions are integer polynomial identities over ghost affine coordinates, the chord/tangent slope stated inverse-free): AddJacobian and DoubleJacobian (both the a == -3 shortcut and the general formula) represent the textbook chord / tangent result (X3 == x3*Z3^2, Y3 == y3*Z3^3), affine Add / Double satisfy the textbook law with an explicit modular-inverse witness, Negate, AffineToJacobian, JacobianToAffine. Named-curve parameters: ground obligations. Special-case branch correspondence, scalar multiplication loops and every batched variant: bounded, exhaustive over whole small prime-order groups against an independent implementation.",
+          NOTE + " Associativity of the group law (needed for Multiply / BatchMultiplyG correctness) is not proved; those are bounded.", "DESIGN.md 4/C11"),
   "C06": ("proof", TECH,
           "CheckSizes/CheckExponents/CheckROCA/CheckROCAVariant flag exactly their closed-form criterion (loop-body obligations over an arbitrary artifact); ROCAKeyDetector._HasDiscreteLog/IsWeak and ROCAKeyVariantDetector.IsWeak are proved against their definitions (39/48 primes, Euclidean witnesses). Denylist fingerprints, keypair table and EC criteria: see evidence (bounded / not yet under contract).",
           NOTE, "DESIGN.md 4/C06"),
